@@ -32,7 +32,27 @@ def scen_tree(rng):
     return rec("plan"), order, parent
 
 
-def view(ap, overrides, parent, sc):
+def effective(ap, overrides, parent, order):
+    """effective value of every overridable attribute in every scenario, computed by the extracted
+    Model/Scenario.v (eff): written for the scenario, else for its nearest ancestor, else the unprefixed value"""
+    idx = projects.task_index(ap)
+    num = {s: i for i, s in enumerate(order)}
+    par = [(-1 if parent[s] is None else num[parent[s]]) for s in order]
+    lines, keys = [], []
+    for p, n in idx.items():
+        for key in ("effort", "start", "end"):
+            if not any((p, s, key) in overrides for s in order):
+                continue
+            ov = [overrides.get((p, s, key), -1) for s in order]
+            base = n.get(key)
+            for s in order:
+                lines.append("eff %d %s %s %d %d" % (len(order), " ".join(map(str, par)), " ".join(map(str, ov)), -1 if base is None else base, num[s]))
+                keys.append((p, key, s))
+    outs = common.run_driver("miscdriver", lines) if lines else []
+    return {k: (None if int(o) < 0 else int(o)) for k, o in zip(keys, outs)}
+
+
+def view(ap, eff, sc):
     """the single-scenario project that scenario sc must equal"""
     ap2 = copy.deepcopy(ap)
     ap2.pop("scenario_lines", None)
@@ -40,12 +60,11 @@ def view(ap, overrides, parent, sc):
     for p, n in idx.items():
         n.pop("sc_attrs", None)
         for key in ("effort", "start", "end"):
-            s = sc
-            while s is not None:
-                if (p, s, key) in overrides:
-                    n[key] = overrides[(p, s, key)]
-                    break
-                s = parent[s]
+            if (p, key, sc) in eff:
+                if eff[(p, key, sc)] is None:
+                    n.pop(key, None)
+                else:
+                    n[key] = eff[(p, key, sc)]
     return ap2
 
 
@@ -76,8 +95,9 @@ def run(ctx):
             idx[p].setdefault("sc_attrs", []).append((s, key, val))
         multi.append(ap2)
         metas.append((order, parent, overrides))
+        eff = effective(ap2, overrides, parent, order)
         for s in order:
-            singles.append(view(ap2, overrides, parent, s))
+            singles.append(view(ap2, eff, s))
     rm = projects.schedule_all(ctx, multi, ledger=True)
     rs = projects.schedule_all(ctx, singles, ledger=True)
     bad, stats = [], Counter()
@@ -127,7 +147,7 @@ def run(ctx):
         violations.append({"no_input": True, "replay": common.write_replay(ctx, {"property": "C16", "kind": "proof obligation no longer checks; no failing input found", "failing_obligations": failing})})
     cov = {"obligations": nob, "discharged": ndis, "checker_cmd": "tools/coqbuild.sh (coqc 8.16.1 full .vo build)", "trusted_base": common.TRUSTED, "files": files,
            "traces_validated_against_impl": stats["compared"], "input_distribution": dict(stats), "findings": len(bad),
-           "rule": "projects with 2-5 scenarios in random nesting, scenario-specific effort/start overrides on random tasks for random scenarios written in random order; every scenario of the multi-scenario run is compared (dates, scheduled flags and the complete usage ledger) with a single-scenario run of the project in which every attribute has the value written for that scenario, else for its nearest ancestor scenario, else the unprefixed value",
+           "rule": "projects with 2-5 scenarios in random nesting, scenario-specific effort/start overrides on random tasks for random scenarios written in random order; every scenario of the multi-scenario run is compared (dates, scheduled flags and the complete usage ledger) with a single-scenario run of the project in which every attribute has the value written for that scenario, else for its nearest ancestor scenario, else the unprefixed value - these effective values are computed by the extracted Model/Scenario.v (eff), not by the harness",
            "samples": [{"project": projects.render(multi[0])[:900]}]}
     common.finish(ctx, "proof", cov, violations,
                   ["partial: that different scenarios use distinct ledger / counter objects is observed through the comparison of complete ledgers, not proved about Python object identity",
